@@ -23,6 +23,7 @@ type c14File struct {
 	Path    string    `json:"path"`
 	Lines   []c14Line `json:"lines"`
 	CRLF    bool      `json:"crlf"`
+	LinkTo  string    `json:"link_to,omitempty"` // the file is a symbolic link to this path (below the root, not itself a target of the walk)
 	NoFinal bool      `json:"nofinal"`
 }
 
@@ -119,6 +120,13 @@ func c14Gen(r *rand.Rand) *c14Case {
 	for _, i := range r.Perm(len(names))[:nf] {
 		f := c14File{Path: names[i], CRLF: core.Chance(r, 1, 6), NoFinal: core.Chance(r, 1, 6)}
 		n := 3 + r.Intn(25)
+		if core.Chance(r, 1, 10) {
+			n = 1 // a stub of one line (often without a final newline)
+			f.NoFinal = core.Chance(r, 2, 3)
+		}
+		if core.Chance(r, 1, 10) {
+			f.LinkTo = core.Pick(r, "site/active-"+fmt.Sprint(i)+".cfg", "local/"+fmt.Sprint(i)+".conf.real")
+		}
 		for j := 0; j < n; j++ {
 			if core.Chance(r, 1, 3) {
 				f.Lines = append(f.Lines, marker(core.Pick(r, kinds...)))
@@ -151,6 +159,12 @@ func c14Check(env *core.Env, cc core.Case) core.Verdict {
 	for i := range c.Files {
 		f := &c.Files[i]
 		tree[f.Path] = f.render(c.V0, c.Y0, false)
+		if f.LinkTo != "" {
+			// reached through a link: it is rewritten through the link, the link stays
+			tree[f.LinkTo] = tree[f.Path]
+			up := strings.Repeat("../", strings.Count(f.Path, "/"))
+			tree[f.Path] = sut.SymlinkPrefix + up + f.LinkTo
+		}
 		for _, l := range f.Lines {
 			if l.Kind != "text" {
 				markers++
@@ -186,6 +200,10 @@ func c14Check(env *core.Env, cc core.Case) core.Verdict {
 		allowed := map[string]bool{}
 		for _, f := range c.Files {
 			allowed["~"+filepath.Join("crs", f.Path)] = true
+			if f.LinkTo != "" {
+				delete(allowed, "~"+filepath.Join("crs", f.Path))
+				allowed["~"+filepath.Join("crs", f.LinkTo)] = true
+			}
 		}
 		for _, d := range sut.Diff(before, now) {
 			if !allowed[d] {
@@ -257,7 +275,7 @@ func init() {
 	register(&core.Property{
 		ID:    "C14",
 		Level: "exploration",
-		Rule: "generated CRS trees (1..4 .conf/.example files anywhere below the root, each 3..27 lines mixing the five marker kinds with prose that merely resembles markers; CRLF; missing final newline; decoys with near-miss names and a file outside the root) start at a version v0 drawn from the accepted forms (x.y.z, -rc1, -RC1, -rc.1, v prefix, +build, x.y, x, git-describe style) and get a sequence of 1..3 update-copyright invocations. " +
+		Rule: "generated CRS trees (1..4 .conf/.example files anywhere below the root, each 3..27 lines mixing the five marker kinds with prose that merely resembles markers; CRLF; missing final newline; one-line stubs; files reached through a symbolic link; decoys with near-miss names and a file outside the root) start at a version v0 drawn from the accepted forms (x.y.z, -rc1, -RC1, -rc.1, v prefix, +build, x.y, x, git-describe style) and get a sequence of 1..3 update-copyright invocations. " +
 			"Oracle after every step: each generated file equals the line model (every marker shows the step's version / its digits / year, every other line as it was), nothing else in the sandbox changed, a repeated command is a no-op. Non-trivial = >= 2 markers and a final version different from v0.",
 		Cases: func(env *core.Env, rng *rand.Rand) []core.Case {
 			n := env.N(800, 8000)
